@@ -22,7 +22,7 @@ func propC01() *Property {
 			{ID: "R01.4", Floor: 2, Text: "runOutputOnceStream transmits with oLock held; closeWithError's direct transmission too", Run: r01_4},
 			{ID: "R01.5", Floor: 3, Text: "splitting loops are consume loops", Run: r01_5},
 			{ID: "R01.6", Floor: 3, Text: "dispatch key, single producer of recvQueue on TCP, no silent drop on a full queue", Run: r01_6},
-			{ID: "R01.7", Floor: 4, Text: "Session.Read is a consume loop: copy(b[n:], src); n += copied; src[copied:] kept in unreadBuf; older tail before newer segment; under rLock", Run: r01_7},
+			{ID: "R01.7", Floor: 5, Text: "Session.Read is a consume loop: copy(b[n:], src); n += copied; src[copied:] kept in unreadBuf; older tail before newer segment; under rLock", Run: r01_7},
 			{ID: "R01.8", Floor: 4, Text: "fragment sizes fit the length field (shared with R14.2)", Run: r14_2},
 			{ID: "R01.9", Floor: 4, Text: "implicit nonce progression identical on both sides (shared with R09.5)", Run: r09_5},
 			{ID: "R01.10", Floor: 5, Text: "sequence numbers assigned under oLock (shared with R13.5); queued payloads never alias the caller's buffer (shared with R13.6)", Run: func(c *RC) { r13_5(c); r13_6(c) }},
@@ -631,6 +631,44 @@ func r01_7(c *RC) {
 		cl, ok := in.(*ssa.Call)
 		if !ok || calleeName(cl) != "DeleteMin" || !sameField(fieldOrigin(cl.Call.Args[0]), rq) {
 			return
+		}
+		// every segment taken off the queue has its payload handed out:
+		// from the ok edge no path reaches the next dequeue or a return
+		// without the copy of that segment's payload
+		var okSucc *ssa.BasicBlock
+		for _, r := range *cl.Referrers() {
+			if ex, isEx := r.(*ssa.Extract); isEx && ex.Index == 1 {
+				for _, r2 := range *ex.Referrers() {
+					if iff, isIf := r2.(*ssa.If); isIf {
+						okSucc = iff.Block().Succs[0]
+					}
+				}
+			}
+		}
+		if okSucc == nil {
+			c.Undecided("dequeued-payload-delivered", in.Pos(), "cannot find the ok edge of recvQueue.DeleteMin")
+		} else {
+			isPayloadCopy := func(x ssa.Instruction) bool {
+				xc, ok := x.(*ssa.Call)
+				return ok && calleeNameAny(xc) == "copy" && isLoadOf(xc.Call.Args[1], pl)
+			}
+			var hit ssa.Instruction
+			if first := okSucc.Instrs[0]; isPayloadCopy(first) {
+				hit = nil
+			} else {
+				hit = reachableAvoiding(fn, first, func(x ssa.Instruction) bool {
+					if isReturn(x) {
+						return true
+					}
+					xc, ok := x.(*ssa.Call)
+					return ok && calleeName(xc) == "DeleteMin"
+				}, isPayloadCopy)
+			}
+			if hit == nil {
+				c.OKH("dequeued-payload-delivered", in.Pos(), "every path from a successful dequeue to the next dequeue or a return copies that segment's payload")
+			} else {
+				c.Bad("dequeued-payload-delivered", in.Pos(), "Session.Read can take a segment off the receive queue and move on (%s) without handing its payload to the application: authenticated bytes the peer sent (e.g. the payload piggybacked on an open session response) are silently dropped", p.Pos(hit.Pos()))
+			}
 		}
 		if lockHeldAt(fn, in, rl) {
 			c.OKH("dequeue-under-rLock", in.Pos(), "recvQueue.DeleteMin with rLock held")
